@@ -241,6 +241,27 @@ func piqiExact(c *vkit.Collector, rng *vkit.Rng, budget int) {
 			}
 		}
 	}
+	// exhaustive at the coarse levels: every (pi, qi) of levels 0..6 on every face
+	exh := 0
+	for level := 0; level <= 6; level++ {
+		for pi := uint32(0); pi < 1<<uint(level); pi++ {
+			for qi := uint32(0); qi < 1<<uint(level); qi++ {
+				for face := 0; face < 6; face++ {
+					si := (2*pi + 1) << uint(30-level)
+					ti := (2*qi + 1) << uint(30-level)
+					want := s2.Point{Vector: s2.VerifC09FaceSiTiToXYZ(face, si, ti).Normalize()}
+					got := s2.VerifC09FacePiQiToXYZ(face, pi, qi, level)
+					exh++
+					if !ptEq(want, got) {
+						bad++
+						violate(c, "H_piqi_exact", "facePiQitoXYZ != faceSiTiToXYZ.Normalize() bit for bit (exhaustive sweep)", map[string]interface{}{"face": face, "pi": pi, "qi": qi, "level": level})
+					}
+					checkCentre(c, got)
+				}
+			}
+		}
+	}
+	c.Extra["piqi_exact_exhaustive_levels_0_6"] = exh
 	c.Extra["piqi_exact_checked"] = n
 	c.Extra["piqi_exact_failed"] = bad
 }
